@@ -1,0 +1,78 @@
+//! Verification hook (only compiled with `--cfg oxidd_verif`): mutex and
+//! condition variable for the task queue of the concurrent bubble sort. On
+//! threads controlled by an exploration harness, blocking is announced to the
+//! harness (`oxidd_core::verif::acquire()` with a readiness predicate) instead
+//! of being left to the operating system; on other threads, both types behave
+//! exactly like their `parking_lot` counterparts.
+
+use std::collections::VecDeque;
+use std::sync::Arc;
+use std::sync::atomic::{AtomicBool, Ordering::SeqCst};
+
+use oxidd_core::verif;
+
+pub(super) struct Mutex<T>(parking_lot::Mutex<T>);
+pub(super) type MutexGuard<'a, T> = parking_lot::MutexGuard<'a, T>;
+
+impl<T: Send> Mutex<T> {
+    pub(super) fn new(value: T) -> Self {
+        Self(parking_lot::Mutex::new(value))
+    }
+
+    pub(super) fn lock(&self) -> MutexGuard<'_, T> {
+        verif::acquire(
+            verif::class::OTHER_LOCK,
+            self as *const Self as usize,
+            &|| !self.0.is_locked(),
+        );
+        self.0.lock()
+    }
+}
+
+pub(super) struct Condvar {
+    real: parking_lot::Condvar,
+    /// Controlled threads waiting on this condition variable (FIFO)
+    waiting: parking_lot::Mutex<VecDeque<Arc<AtomicBool>>>,
+}
+
+impl Condvar {
+    pub(super) fn new() -> Self {
+        Self {
+            real: parking_lot::Condvar::new(),
+            waiting: parking_lot::Mutex::new(VecDeque::new()),
+        }
+    }
+
+    pub(super) fn wait<T: Send>(&self, guard: &mut MutexGuard<'_, T>) {
+        if !verif::controlled() {
+            return self.real.wait(guard);
+        }
+        let ticket = Arc::new(AtomicBool::new(false));
+        self.waiting.lock().push_back(ticket.clone());
+        let mutex = MutexGuard::mutex(guard);
+        let addr = self as *const Self as usize;
+        MutexGuard::unlocked(guard, || {
+            // no wake-up without a notification, as for the real thing
+            verif::acquire(verif::class::OTHER_LOCK, addr, &|| ticket.load(SeqCst));
+            verif::acquire(
+                verif::class::OTHER_LOCK,
+                mutex as *const _ as usize,
+                &|| !mutex.is_locked(),
+            );
+        });
+    }
+
+    pub(super) fn notify_one(&self) {
+        if let Some(t) = self.waiting.lock().pop_front() {
+            t.store(true, SeqCst);
+        }
+        self.real.notify_one();
+    }
+
+    pub(super) fn notify_all(&self) {
+        for t in self.waiting.lock().drain(..) {
+            t.store(true, SeqCst);
+        }
+        self.real.notify_all();
+    }
+}
